@@ -92,6 +92,7 @@ def run(ctx) -> None:
         par.pmap(ctx, realise_job, [(n, exp, sc, str(root / f"job{n}"), ctx.seed) for n, exp in enumerate(chosen)])
         refusal(ctx, yaw, root, sc, rng, InconsistentPatchesError)
         refusal_roles(ctx, yaw, root, sc, InconsistentPatchesError)
+        big_patch(ctx, yaw, root)
         generated(ctx, yaw, root, rng)
 
 
@@ -297,6 +298,41 @@ def refusal_roles(ctx, yaw, root, sc, Err):
         ctx.evaluated(1, ("refusal_roles", "aligned", widen))
         if got != "accepted":
             ctx.violation(f"C12|crosscorrelate|aligned,wide_patches_in={widen}|aligned_catalogs_{got}", dict(catalog_with_wide_patch=widen))
+
+
+def big_patch(ctx, yaw, root) -> None:
+    """A patch with more than 2^20 records whose outskirts arrive last (index arithmetic at scale): every record
+    within the stored radius of the stored centre, counts and weight sums exact, after creation and after reopening."""
+    import pandas as pd
+
+    n0, n1 = 1_102_000, 60_000
+    rng = np.random.default_rng(5)
+    ra = np.concatenate([20.0 + rng.uniform(-0.3, 0.3, n0 - 2000), 20.0 + rng.uniform(0.7, 0.8, 2000), 40.0 + rng.uniform(-0.3, 0.3, n1)])
+    dec = np.concatenate([rng.uniform(-0.05, 0.05, n0), rng.uniform(-0.05, 0.05, n1)])
+    # the far records of patch 0 come last among the records of patch 0 in the table
+    order = np.concatenate([np.arange(0, n0 - 2000), np.arange(n0, n0 + n1), np.arange(n0 - 2000, n0)])
+    df = pd.DataFrame(dict(ra=ra[order], dec=dec[order], w=np.ones(n0 + n1)))
+    cen = yaw.AngularCoordinates(np.deg2rad([[20.0, 0.0], [40.0, 0.0]]))
+    cat = yaw.Catalog.from_dataframe(root / "big", df, ra_name="ra", dec_name="dec", weight_name="w", patch_centers=cen, chunksize=250_000,
+                                     overwrite=True, max_workers=1)
+    for label, c in (("created", cat), ("reopened", yaw.Catalog(root / "big", max_workers=1))):
+        ctx.evaluated(1, ("big_patch", label))
+        num = list(c.get_num_records())
+        if num != [n0, n1]:
+            ctx.violation(f"C12|apply|patch_with_more_than_2^20_records,{label}|count_or_weight_sum_differs", dict(num=num, expected=[n0, n1]))
+            continue
+        centers, radii = c.get_centers().data, c.get_radii().data
+        for pid, patch in c.items():
+            d = patch.load_data()
+            r0, d0 = centers[pid]
+            # great-circle distance of every record to the stored centre (haversine, vectorised)
+            h = np.sin((d["dec"] - d0) / 2) ** 2 + np.cos(d["dec"]) * np.cos(d0) * np.sin((d["ra"] - r0) / 2) ** 2
+            dist = 2 * np.arcsin(np.sqrt(np.clip(h, 0, 1)))
+            if float(dist.max()) > float(radii[pid]) + 1e-12:
+                ctx.violation(f"C12|apply|patch_with_more_than_2^20_records,{label}|record_outside_stored_radius",
+                              dict(patch=int(pid), stored_radius_deg=float(np.rad2deg(radii[pid])), farthest_record_deg=float(np.rad2deg(dist.max())),
+                                   records=int(len(d))))
+                break
 
 
 def generated(ctx, yaw, root, rng):
